@@ -257,8 +257,31 @@ def run(prop, seed, budget, ctx):
             res = graphql.graphql_sync(sch, q); evaluations += 1
             wantd = {f"box{i}x{k}": {"content": a[3], "first": a[3], "repeat": [a[3], a[3]], "sameAs": True, "maybe": None}}
             if res.errors or res.data != wantd: fail("execution-differs-from-serialize", info=dict(info, cls=cname), query=q, errors=[str(e) for e in res.errors or []][:2], data=res.data, expected=wantd)
+    # the resolve-info parameter anywhere among the parameters; object defaults of parameters whose fields are renamed by the aliaser
+    fam4 = ["from dataclasses import dataclass, field", "from typing import *", "import graphql", ""]
+    n4 = 8 * budget; pos4 = []
+    for i in range(n4):
+        pos = i % 3; pos4.append(pos)
+        params = ["a: int", "b: int = 2"]; params.insert(pos, "info: graphql.GraphQLResolveInfo" + (" = None" if pos == 2 else ""))
+        fam4 += [f"def withinfo{i}({', '.join(params)}) -> int:", "    return a * 10 + b + (1000 if info.field_name else 0)", "",
+                 "@dataclass", f"class Inp{i}:", "    my_field: int = 0", "    other_one: int = 1", "",
+                 f"def dflt{i}(inp: Inp{i} = Inp{i}(3), n: int = 1) -> int:", "    return inp.my_field * 10 + inp.other_one + n * 100", ""]
+    m4 = build_module(fam4, f"gqlfam4_{seed}")
+    for i in range(n4):
+        info = {"family4": i, "info_parameter_position": pos4[i]}
+        evaluations += 1; distinct.add(("family4", i))
+        try: sch = graphql_schema(query=[getattr(m4, f"withinfo{i}"), getattr(m4, f"dflt{i}")])
+        except Exception as e:
+            fail("schema-generation-raises:" + type(e).__name__, info=info, msg=str(e)[:200]); continue
+        f = sch.query_type.fields[f"withinfo{i}"]
+        if sorted(f.args) != ["a", "b"]: fail("argument-missing-from-the-schema", info=info, args=sorted(f.args), expected=["a", "b"])
+        for q, want in ((f"{{ withinfo{i}(a: 1, b: 5) }}", {f"withinfo{i}": 1015}), (f"{{ withinfo{i}(a: 2) }}", {f"withinfo{i}": 1022}),
+                        (f"{{ dflt{i} }}", {f"dflt{i}": 131}), (f"{{ dflt{i}(inp: {{myField: 4}}, n: 2) }}", {f"dflt{i}": 241})):
+            evaluations += 1
+            res = graphql.graphql_sync(sch, q)
+            if res.errors or res.data != want: fail("execution-differs-from-serialize", info=info, query=q, errors=[str(e) for e in res.errors or []][:2], data=res.data, expected=want)
     return {"evaluations": evaluations, "distinct_nontrivial": len(distinct),
-            "rule": "resolvers of a generic base inherited by non-generic subclasses (one and two levels); generated query resolvers: return types over primitives / Optional / List / enums / dataclasses nested to depth 3, one optional argument "
+            "rule": "the resolve-info parameter at any position, object defaults of parameters under the aliaser; resolvers of a generic base inherited by non-generic subclasses (one and two levels); generated query resolvers: return types over primitives / Optional / List / enums / dataclasses nested to depth 3, one optional argument "
                     "(required int, defaulted int, Optional[int], List[int]); full-selection execution with valid and invalid arguments; plus families with a constrained NewType / input-object argument "
                     "under three error_handler settings and an interface chain (interface <- interface <- class, interface <- plain class <- class); families with a union of objects "
                     "used by three fields, input objects / parameters with list and dataclass defaults, one- and two-level flattened fields (the flattened class also queried alone in a third); non-trivial = "
